@@ -448,6 +448,8 @@ class ArgElementI(ElementI, _ListElementI):
 
 
 ARG_ELEMENTS = ListOf(Iface(ArgElementI))
+M.assume('ElementSdv.resolve(symbols) of an argument-list element is a function of the element and the symbol table '
+         '(interface ArgElementI / C08b ElementSdvI; what the two real element classes give: C08)')
 
 
 def same(x, y):
@@ -803,7 +805,10 @@ M.contract(P_PFS + ':plain', inline=True,
 
 @M.bounded('list-resolution')
 def _list_resolution(ctx):
-    """ListSdv.resolve (a loop that extends a list by each element's resolution) is executed natively on EVERY
+    """(Extension L8: ListSdv.resolve is now PROVED to be this flat-map for element sequences of any length --
+    contracts/C08b_list_flatmap.py, shared into C10 and used at its call sites; this stand-in is kept as a native
+    cross-check with the real element classes and for list_sdvs.concat.)
+    ListSdv.resolve (a loop that extends a list by each element's resolution) is executed natively on EVERY
     element sequence up to length 3 over 9 kinds of elements (constants: empty / with spaces / with quotes;
     references to a string, a path, lists of length 0, 1, 2, a list containing a reference) and compared with the
     independent definition  `flatten([strings denoted by e] for e in elements)`; and list_sdvs.concat is checked
